@@ -77,11 +77,18 @@ class Interp(LibMixin, CallMixin, StmtMixin, ExprMixin, InterpBase):
                     ctx.assume(z3.Select(z3.Select(st.lel, r), i) == ev)
             elif p.elem is not None:
                 st.ghost.setdefault("elem_sorts", {})[str(base)] = p.elem
+        elif p.kind == "seq":
+            r = self.fresh_ref(name)
+            base = VRef(r)
+            ctx.assume(z3.Or(*[z3.Select(st.typeof, r) == t.id(k) for k in ("list", "tuple", "set", "frozenset")]))
+            ctx.assume(z3.Select(st.llen, r) >= 0)
         elif p.kind in ("dict", "strdict"):
             r = self.fresh_ref(name)
             base = VRef(r)
             ctx.assume(z3.Select(st.typeof, r) == t.id("dict"))
             ctx.assume(z3.Select(st.dlen, r) >= 0)
+            if p.elem != "agent":
+                st.ghost.setdefault("host_data_dicts", []).append(base)
         elif p.kind == "frame":
             r = self.fresh_ref(name)
             base = VRef(r)
